@@ -194,6 +194,9 @@ def run(tier):
                 pis = all_idx if tier == "thorough" else rng.sample(all_idx, 6) + [index["0"], index["ff0000"], index["50"]]
                 for pi in pis:
                     kids.append((vi, s, t, pi))
+    # versions are visited in mixed order inside one process (tables shared between versions must not be edited in place)
+    rng.shuffle(kids)
+    rng.shuffle(recs)
     n = common.ncpu()
     nshards = n if tier == "quick" else n * 4
     jobs = []
